@@ -187,7 +187,7 @@ def run(ctx):
                        "up to length %d over names {a, A, x-Y} with serial values, every sequence of the cache-affecting "
                        "operations up to length %d over {a, A}, seeded TLC simulation walks (depth 30, 6 names, all line "
                        "spellings) and random recorded runs of length 40; distinct = distinct operation sequence; "
-                       "non-trivial = length >= 2" % (La, Lb))
+                       "non-trivial = length >= 2" % (3, 4))
 
 
 def replay(ctx, rec):
